@@ -15,6 +15,7 @@ Driver for C33. Trace lines of one case:
 import Pithos.Util.Proto
 import Pithos.Model.VHost
 import Pithos.Spec.VHost
+import Pithos.Gen.C33Routes
 open Pithos Pithos.Proto Pithos.Ascii Pithos.VHost
 
 /-- Which variant of the rewrite the tie compares against.
@@ -96,7 +97,7 @@ def judgeCase (_k : Nat) (lines : List String) : Verdict := Id.run do
   let mut curSite : Option (List Char × String × List Char) := none
   let mut idx := 0
   let mut nApi := 0; let mut nActed := 0; let mut nRedirect := 0; let mut nSite := 0; let mut nSiteReads := 0
-  let mut nSiteRefused := 0; let mut nTrailing := 0; let mut nEnc := 0; let mut nBucketLevel := 0; let mut nBad := 0
+  let mut nSiteRefused := 0; let mut nApiControls := 0; let mut nTrailing := 0; let mut nEnc := 0; let mut nBucketLevel := 0; let mut nBad := 0
   for l in lines.drop 1 do
     let ts := tokens l
     match ts with
@@ -155,26 +156,33 @@ def judgeCase (_k : Nat) (lines : List String) : Verdict := Id.run do
       | some (host, meth, target), some o =>
         nSite := nSite + 1
         let raw := target.takeWhile (· != '?')
-        -- judge: no state-changing storage call
-        for c in o.calls do
-          if !Spec.isReadOnly c.method then
-            vio := vio ++ [("C33.website-request-mutates", s!"op{idx}:host={showL host},{meth} {showL target}:{showObs o}")]
+        -- judge: a host that is not the API endpoint or a true subdomain of it never changes state
+        let apiBySpec := Spec.isApiHost apiEp host
+        if apiBySpec then nApiControls := nApiControls + 1
+        else
+          for c in o.calls do
+            if !Spec.isReadOnly c.method then
+              vio := vio ++ [("C33.website-request-mutates", s!"op{idx}:host={showL host},{meth} {showL target}:{showObs o}")]
         if !o.calls.isEmpty then nSiteReads := nSiteReads + 1
         -- tie
         match route apiEp webEp host, parseTarget raw with
-        | .api, _ => div := div ++ [s!"op{idx}:site-host-routed-to-api:{showL host}"]
+        | .api, _ =>
+          -- model: this host is served by the API mux (not constrained further here)
+          if !apiBySpec then div := div ++ [s!"op{idx}:model-routes-non-api-host-to-api:{showL host}"]
         | _, none => if o.status != "bad" && o.status != "400" then div := div ++ [s!"op{idx}:site:model=bad-request,impl={showObs o}"]
         | fam, some u =>
           let bucket := match fam with | .website b => b | .custom b => b | .api => []
           let out := siteResolve bucket u
-          if out == .redirect then
+          if o.status == "bad" then pure ()   -- net/http refused the Host header / request line itself
+          else if out == .redirect then
             if !(isRedirectStatus o.status && o.calls.isEmpty) then div := div ++ [s!"op{idx}:site:model=redirect,impl={showObs o}"]
           else if !Spec.safeHttpMethods.contains meth then
             nSiteRefused := nSiteRefused + 1
             if !(o.status == "405" && o.calls.isEmpty) then div := div ++ [s!"op{idx}:site:model=405,impl={showObs o}"]
           else
-            if !(o.calls.all fun c => c.bucket == none || c.bucket == some bucket) then
-              div := div ++ [s!"op{idx}:site:model-bucket={showL bucket},impl={showObs o}"]
+            let allowedCalls := Pithos.Gen.C33Routes.websiteStorageCalls.flatMap (·.2)
+            if !(o.calls.all fun c => (c.bucket == none || c.bucket == some bucket) && allowedCalls.contains c.method) then
+              div := div ++ [s!"op{idx}:site:model-bucket={showL bucket},calls-within-website-handlers,impl={showObs o}"]
         curSite := none
       | _, _ => div := div ++ [s!"op{idx}:unparsable-or-orphan-w-line"]
     | _ => div := div ++ [s!"unparsable-line:{l}"]
@@ -185,7 +193,7 @@ def judgeCase (_k : Nat) (lines : List String) : Verdict := Id.run do
     stats := [("api_request_pairs", nApi), ("pairs_reaching_storage", nActed), ("pairs_redirected", nRedirect),
               ("pairs_rejected_by_net_http", nBad), ("bucket_level_pairs", nBucketLevel),
               ("keys_with_trailing_slash", nTrailing), ("keys_percent_encoded", nEnc),
-              ("site_requests", nSite), ("site_requests_reaching_storage", nSiteReads), ("site_requests_refused_405", nSiteRefused)],
+              ("site_requests", nSite), ("site_requests_reaching_storage", nSiteReads), ("site_requests_refused_405", nSiteRefused), ("site_matrix_api_host_controls", nApiControls)],
     samples := [String.intercalate ";" (lines.take 4)]
   }
 
